@@ -44,7 +44,38 @@ def routes(d):
         shutil.rmtree(tmp, ignore_errors=True)
 
 
+def session_oracle(case: dict):
+    """ONE parser object (and one formatter object) serves a sequence of dicts, through parse_string and through
+    DictReader.read(file, parser=...), with counter resets in between: every result is that of a fresh parser"""
+    dictIO = native.dictio()
+    ps, fm = dictIO.NativeParser(), dictIO.NativeFormatter()
+    tmp = native.scratch_dir("c01s_")
+    try:
+        for i, (d, how) in enumerate(zip(case["trees"], case["how"])):
+            exp = native.normalise(d)
+            try:
+                if how == "reset":
+                    dictIO.SDict().reset()
+                txt = fm.to_string(copy.deepcopy(d))
+                if how == "file":
+                    f = tmp / f"s{i}"
+                    f.write_text(txt)
+                    got = gen.plain(dict(dictIO.DictReader.read(f, parser=ps)))
+                else:
+                    got = gen.plain(dict(ps.parse_string(txt, dictIO.SDict())))
+            except Exception as e:  # noqa: BLE001
+                return ("raises", f"step {i} of a session with one parser object raised {type(e).__name__}: {e}")
+            got = native.strip_placeholders(got, kinds=("BLOCKCOMMENT",))
+            if not gen.typed_eq(got, exp):
+                return ("differs", f"step {i} ({how}) of a session with one parser object: read back {got!r}, expected {exp!r}")
+        return None
+    finally:
+        shutil.rmtree(tmp, ignore_errors=True)
+
+
 def oracle(case: dict):
+    if case.get("kind") == "session":
+        return session_oracle(case)
     d = case["t"]
     exp = native.normalise(d)
     it = routes(d)
@@ -61,6 +92,11 @@ def oracle(case: dict):
 
 
 def shrink(case):
+    if case.get("kind") == "session":
+        for i in range(len(case["trees"])):
+            if len(case["trees"]) > 1:
+                yield dict(case, trees=case["trees"][:i] + case["trees"][i + 1:], how=case["how"][:i] + case["how"][i + 1:])
+        return
     for t2 in gen.shrink_tree(case["t"]):
         if gen.tree_depth(t2) <= 9 and _in_domain(t2):
             yield {"t": t2}
@@ -165,6 +201,22 @@ def run(ctx):
     trees = [gen_case(rng, i) for i in range(ctx.n(1200, 40000))]
     trees = [t for t in trees if gen.tree_depth(t) <= 9]
     run_cases(ctx, trees, "random")
+    # sessions: one parser object over several dicts that share quoted leaves (the same dict again, the same strings in
+    # other places), string and file route, counter resets in between
+    for i in range(ctx.n(40, 800)):
+        k = rng.randrange(2, 6)
+        base = [t for t in (gen_case(rng, 7 * i + j) for j in range(k)) if gen.tree_depth(t) <= 9] or [{"a": "two words"}]
+        seq = []
+        for j in range(k):
+            t = copy.deepcopy(rng.choice(base))
+            if rng.random() < 0.5:
+                t = {"unit": "m3 / h", "name": rng.choice(["feed pump", "spare pump"]), **t, "again": ["feed pump", rng.choice(["m3 / h", "x y"])]}
+            seq.append(t)
+        c = {"kind": "session", "trees": seq, "how": [rng.choice(["string", "string", "file", "reset"]) for _ in seq]}
+        r = oracle(c)
+        if r:
+            ctx.oracle_fail(c, r[0], r[1])
+        ctx.count(("s", repr(c)), True, "session")
     # class coverage of strings
     for cls in gen.STR_CLASSES:
         ctx.classes["str:" + cls] += 0
